@@ -175,6 +175,18 @@ class AutoSerialize:
         return val
 
     @staticmethod
+    def _restore_rng(subgrp: zarr.Group) -> Any:
+        """Recreate a NumPy / torch random generator from its group (fresh state)."""
+        if subgrp.attrs.get("_torch_rng_skipped"):
+            return torch.Generator()
+        import numpy.random as npr
+
+        bit_generator_type = subgrp.attrs.get("_bit_generator_type", "PCG64")
+        bit_gens = {"PCG64": npr.PCG64, "MT19937": npr.MT19937, "Philox": npr.Philox, "SFC64": npr.SFC64}
+        # Fall back to the default bit generator for unknown names
+        return npr.Generator(bit_gens.get(cast(str, bit_generator_type), npr.PCG64)())
+
+    @staticmethod
     def _is_autoserialize_instance(value: Any) -> bool:
         """Return True if value behaves like an AutoSerialize instance, even across autoreloads."""
         if isinstance(value, AutoSerialize):
@@ -968,6 +980,10 @@ class AutoSerialize:
                             else:
                                 # Skip unknown logger types in containers
                                 continue
+                        elif subgroup.attrs.get("_numpy_rng") or subgroup.attrs.get(
+                            "_torch_rng_skipped"
+                        ):
+                            items.append(AutoSerialize._restore_rng(subgroup))
                         else:
                             raise ValueError(
                                 f"Unknown group structure at key '{key}' in {group.path}"
@@ -1087,6 +1103,10 @@ class AutoSerialize:
                         else:
                             # Skip unknown logger types in containers
                             continue
+                    elif subgroup.attrs.get("_numpy_rng") or subgroup.attrs.get(
+                        "_torch_rng_skipped"
+                    ):
+                        items.append(AutoSerialize._restore_rng(subgroup))
                     else:
                         raise ValueError(f"Unknown group structure at key '{key}' in {group.path}")
                 else:
@@ -1177,6 +1197,8 @@ class AutoSerialize:
                     else:
                         # Skip unknown logger types in containers
                         continue
+                elif subgroup.attrs.get("_numpy_rng") or subgroup.attrs.get("_torch_rng_skipped"):
+                    result[key] = AutoSerialize._restore_rng(subgroup)
                 else:
                     raise ValueError(f"Unknown group structure at key '{key}' in {group.path}")
 
